@@ -764,6 +764,11 @@ DIRECTED = [
 ]
 
 
+# what an existing file holds before it is overwritten (round 6: overwrite spellings)
+DECOY = {'grid': _g('regular', delta=[2.0], dims=[3], zero=[1.0]), 'field': _f(_g('regular', delta=[2.0], dims=[3], zero=[1.0]), []),
+         'basis': _b(_g('regular', delta=[2.0], dims=[3], zero=[1.0]), 'dense', nm=2)}
+
+
 # ---------------------------------------------------------------------------------------------
 # structural signatures (the oracle's notion of "equal") and snapshots
 
@@ -1340,6 +1345,112 @@ def round_trips(spec, tmpdir):
                 obs['unregistered_read_ok'] = 'named ' + nm
             compare(y, route, 'named-file:' + o['fam'])
             unchanged('reading ' + route, 'named')
+        # spellings of the file routes (round 6): overwrite=False on a fresh path, overwrite=False / True over a file that
+        # already holds another object (keyword and positional), the other setting of the asdf memory-map switch
+        sp_fmt = spec.get('spell')
+        if sp_fmt and obs['fmt'].get(sp_fmt, {}).get('w') == 'ok' and obs['fmt'][sp_fmt].get('r') == 'ok':
+            fam = FAM[sp_fmt]
+            sdir = os.path.join(tmpdir, 'spell')
+            os.makedirs(sdir, exist_ok=True)
+            fn = os.path.join(sdir, 'o.' + sp_fmt)
+            rec = {'fmt': sp_fmt, 'fam': fam}
+            obs['spell'] = rec
+
+            def rd(route, **kw):
+                try:
+                    with _NewStyle(spec.get('newstyle')):
+                        return read(fn, **kw)
+                except Exception as e:  # noqa
+                    fails.append(('%s:%s:%s' % (what, fam, ck), '%s succeeded but reading the file back raised %s: %s' % (route, type(e).__name__, str(e)[:100])))
+                    return None
+
+            def put_decoy():
+                if os.path.exists(fn):
+                    os.remove(fn)
+                with _NewStyle(spec.get('newstyle')):
+                    decoy = build(copy.deepcopy(DECOY[what]))
+                write(decoy, fn)
+                with open(fn, 'rb') as fh:
+                    return decoy, fh.read()
+
+            # (1) a path that does not exist, overwrite=False: the same as the default call
+            if os.path.exists(fn):
+                os.remove(fn)
+            route = 'write_%s(%s, overwrite=False) on a fresh path' % (what, sp_fmt)
+            try:
+                write(x, fn, overwrite=False)
+                rec['fresh'] = 'ok'
+            except Exception as e:  # noqa
+                rec['fresh'] = ERRMAP.get(type(e).__name__, 'other:' + type(e).__name__)
+                fails.append(('%s:%s:%s' % (what, fam, ck), '%s raised %s although the default call writes this object' % (route, type(e).__name__)))
+            if rec['fresh'] == 'ok':
+                y = rd(route)
+                if y is not None:
+                    compare(y, route, fam)
+            unchanged(route, fam)
+            # (2) the path holds another object, overwrite=False given positionally: either refused, and then the file is
+            # byte for byte what it was and still reads as the old object, or accepted, and then it reads as the new one
+            try:
+                decoy, old_bytes = put_decoy()
+            except MachineryError:
+                raise
+            except Exception as e:  # noqa
+                decoy = None
+                obs.setdefault('dtype_faults', []).append('spelling decoy: ' + type(e).__name__)
+            if decoy is not None:
+                route = 'write_%s(x, name, None, False) over an existing %s file' % (what, sp_fmt)
+                try:
+                    write(x, fn, None, False)
+                    rec['over_false'] = 'ok'
+                except Exception as e:  # noqa
+                    rec['over_false'] = ERRMAP.get(type(e).__name__, 'other:' + type(e).__name__)
+                    with open(fn, 'rb') as fh:
+                        same = fh.read() == old_bytes
+                    if not same:
+                        fails.append(('refused-write-alters-file:%s:%s:%s' % (what, fam, ck), '%s raised %s but the file that was there has changed' % (route, type(e).__name__)))
+                    else:
+                        yd = rd(route + ' (refused)')
+                        if yd is not None and first_difference(what, sig(decoy), sig(yd)) is not None:
+                            fails.append(('refused-write-alters-file:%s:%s:%s' % (what, fam, ck), '%s was refused but the old file no longer reads as the object it held' % route))
+                if rec['over_false'] == 'ok':
+                    y = rd(route)
+                    if y is not None:
+                        compare(y, route + ' (accepted)', fam)
+                unchanged(route, fam)
+                # (3) overwrite=True over an existing file: always the new object, never the old one or a mixture
+                route = 'write_%s(x, name, overwrite=True) over an existing %s file' % (what, sp_fmt)
+                try:
+                    put_decoy()
+                    write(x, fn, overwrite=True)
+                    rec['over_true'] = 'ok'
+                except MachineryError:
+                    raise
+                except Exception as e:  # noqa
+                    rec['over_true'] = ERRMAP.get(type(e).__name__, 'other:' + type(e).__name__)
+                    fails.append(('%s:%s:%s' % (what, fam, ck), '%s raised %s although the default call on a fresh path writes this object' % (route, type(e).__name__)))
+                if rec['over_true'] == 'ok':
+                    y = rd(route, fmt=None)
+                    if y is not None:
+                        compare(y, route, fam)
+                unchanged(route, fam)
+                # (4) asdf: the module switch use_asdf_memmap selects the keyword asdf.open() gets; with the other setting
+                # the installed asdf may refuse the keyword (counted), but if it reads, it reads the same object
+                if sp_fmt == 'asdf' and rec.get('over_true') == 'ok':
+                    import sys
+                    iomod = sys.modules.get('hcipy.util.io')
+                    if iomod is not None and hasattr(iomod, 'use_asdf_memmap'):
+                        keep = iomod.use_asdf_memmap
+                        iomod.use_asdf_memmap = not keep
+                        try:
+                            with _NewStyle(spec.get('newstyle')):
+                                y = read(fn)
+                            rec['memmap_other'] = 'ok'
+                            compare(y, 'read_%s(asdf) with use_asdf_memmap = %s' % (what, not keep), fam)
+                            _ = sig(y)
+                        except Exception as e:  # noqa
+                            rec['memmap_other'] = type(e).__name__
+                        finally:
+                            iomod.use_asdf_memmap = keep
         # chains: what was read from A is written to B, read, written to C, read
         for k, chain in enumerate(spec.get('chains') or []):
             cur = read_back.get(chain[0])
@@ -1694,6 +1805,12 @@ def check_spec(ctx, spec, tmpdir, batch):
                                               'model': 'Grid and ModeBasis define no pickling hooks (a pickle holds __dict__); Field defines __reduce__/__getstate__/__setstate__ only'})
     if obs.get('reduce') == []:
         ctx.count('default-pickling-monitored:' + what)
+    if 'spell' in obs:
+        r = obs['spell']
+        for k_ in ('fresh', 'over_false', 'over_true', 'memmap_other'):
+            if k_ in r:
+                ctx.count('spelling:%s:%s:%s' % (r['fam'], {'fresh': 'overwrite=False, no file', 'over_false': 'overwrite=False, file exists',
+                                                             'over_true': 'overwrite=True, file exists', 'memmap_other': 'other use_asdf_memmap'}[k_], r[k_]))
     if 'nogrid_tree' in obs:
         ctx.count('basis-without-grid:sent-to-model')
     if 'spfmt' in obs:
@@ -1980,6 +2097,9 @@ def run(ctx):
             spec['chains'] = [[a, b, FORMATS[(i // 8) % 4]], [a2, b2, FORMATS[(i // 8 + 2) % 4]]]
         else:
             spec['chains'] = gen_chains(rng, 2)
+    # overwrite / memmap spellings: one format per object, walking through the four
+    for i, spec in enumerate(specs):
+        spec.setdefault('spell', FORMATS[(i + i // 4) % 4])
     # named files: the directed corpus walks through the pool of (file name, fmt) pairs, the rest draws from it
     for i, spec in enumerate(specs):
         if 'named' in spec:
